@@ -82,10 +82,18 @@ def lit_string(s):
     return "".join(out)
 
 
+# a null is written as the literal or as an expression that *computes* a null (such nulls carry a trace message inside the SUT;
+# FEEL has one null, so every built-in must treat them alike); the form rotates with a per-case counter
+NULL_FORMS = ["null", "null", "(1/0)", '("a" + 1)', "({q: 1}.zz)", "([][1])"]
+NULL_TRACES = [None, None, "division by zero", "some trace", "no entry"]
+_NULLS = [0, 0]   # [rotation start of the current case, nulls written so far]
+
+
 def to_lit(w):
     """FEEL literal text of the value, or None when it has no safe literal form (then it is always bound)."""
     if w is None:
-        return "null"
+        _NULLS[1] += 1
+        return NULL_FORMS[(_NULLS[0] + _NULLS[1]) % len(NULL_FORMS)]
     if isinstance(w, bool):
         return "true" if w else "false"
     if "n" in w:
@@ -113,7 +121,11 @@ def to_lit(w):
 
 
 def to_bind(w):
-    if w is None or isinstance(w, bool):
+    if w is None:
+        _NULLS[1] += 1
+        t = NULL_TRACES[(_NULLS[0] + _NULLS[1]) % len(NULL_TRACES)]
+        return None if t is None else {"N": t}
+    if isinstance(w, bool):
         return w
     if "fn" in w:
         return {"feel": LAMBDAS[w["fn"]]}
@@ -163,10 +175,16 @@ def show(v):
 # requests
 # ------------------------------------------------------------------------------------------------------------
 
+def canon_args(case):
+    import json
+    return json.dumps(case["args"], sort_keys=True, default=str)
+
+
 def arg_texts(case):
     """(texts per argument, scope): literal text or a bound name."""
     texts, ctx = [], []
     modes = case.get("modes") or []
+    _NULLS[0], _NULLS[1] = len(canon_args(case)) % 7, 0
     for i, w in enumerate(case["args"]):
         lit = to_lit(w)
         bind = lit is None or (i < len(modes) and modes[i])
